@@ -19,7 +19,7 @@ from hypothesis import strategies as st
 
 import darsia
 from vf import gens
-from vf.oracles import RefCS
+from vf.oracles import AXES, RefCS
 from vf.runner import Outcome, Prop, Sub, Violation
 
 # Safety net: a dead worker makes multiprocessing.Pool wait forever.  Cap the address space of
@@ -556,6 +556,22 @@ F("time_interval", "extraction", fd(a=S_SERIES, lo=st.integers(0, 3), n=st.integ
 F("slice:int-axis", "extraction", fd(a=S_23, ax=st.integers(0, 2), cut=st.integers(0, 8)),
   _unary(lambda a, p: a.slice(p["cut"] % a.img.shape[p["ax"] % a.space_dim], p["ax"] % a.space_dim),
          view_ok=True))
+
+
+
+def _slice_named(p):
+    """cut = Cartesian coordinate of the centre of voxel layer k along the named axis."""
+    sp = p["a"]
+    a = mk(sp)
+    c = p["ax"] % sp["dim"]
+    m = AXES[sp["dim"]][c][0]
+    v = np.zeros(sp["dim"])
+    v[m] = p["cut"] % sp["shape"][m] + 0.5
+    cut = float(RefCS(sp["dim"], sp["shape"], sp["dimensions"], sp["origin"]).coordinate(v)[c])
+    return Call({"self": a}, lambda: a.slice(cut, "xyz"[c]), REJ_T + (IndexError,), view_ok=True)
+
+
+F("slice:named-axis", "extraction", fd(a=S_23, ax=st.integers(0, 2), cut=st.integers(0, 8)), _slice_named)
 
 G_SUB = fd(a=_specs(dtypes=ALL_DTYPES, max_nt=3, max_comp=3, min_extent=2),
            lo=st.lists(st.integers(0, 40), min_size=3, max_size=3),
